@@ -854,6 +854,77 @@ def run_periodic(case):
   return R(None, ka + kb > 0, (op, ka > 0, kb > 0))
 
 
+
+# --------------------------- elements that are mutable containers (lists, sets, dicts, deques)
+MUT = OrderedDict([
+  ("list+", (lambda: [[0], [5, 6], []], lambda: [[1], [2], [3, 4]], operator.add)),
+  ("list*", (lambda: [[0], [5, 6], []], lambda: [2, 0, 3], operator.mul)),
+  ("set|", (lambda: [{1}, {2, 3}, set()], lambda: [{7}, {3}, {8, 9}], operator.or_)),
+  ("set&", (lambda: [{1, 7}, {2, 3}, set()], lambda: [{7}, {3}, {8, 9}], operator.and_)),
+  ("set-", (lambda: [{1, 7}, {2, 3}, set()], lambda: [{7}, {3}, {8, 9}], operator.sub)),
+  ("set^", (lambda: [{1, 7}, {2, 3}, set()], lambda: [{7}, {3}, {8, 9}], operator.xor)),
+  ("dict|", (lambda: [{1: 2}, {}, {3: 4}], lambda: [{5: 6}, {7: 8}, {3: 9}], operator.or_)),
+])
+
+
+def gen_mutable(run):
+  for name in MUT:
+    for left in ("list", "repeat-one-object", "hub-two-expressions", "tuple"):
+      for other in ("list", "stream", "scalar"):
+        if other == "scalar" and name != "list*":
+          continue                       # a list / set / dict operand is iterated, not repeated: only the int is a scalar
+        yield (name, left, other)
+
+
+def run_mutable(case):
+  """Elements that implement the operator and are mutable: the i-th output is op(a_i, b_i) - a new value -
+  and the operand elements are what they were (an element may be seen again: a repeated object, a hub
+  feeding two expressions, the caller's own list)."""
+  import copy
+  name, left, other = case
+  mka, mkb, f = MUT[name]
+  a, b = mka(), mkb()
+  if left == "repeat-one-object":
+    a = [a[0]] * 3                       # one object three times
+  keep_a, keep_b = copy.deepcopy(a), copy.deepcopy(b)
+  if other == "scalar" and name == "list*":
+    b = 2
+    keep_b = 2
+    exp = [f(copy.deepcopy(x), 2) for x in keep_a]
+  elif other == "scalar":
+    b = b[0]
+    keep_b = copy.deepcopy(b)
+    exp = [f(copy.deepcopy(x), copy.deepcopy(keep_b)) for x in keep_a]
+  else:
+    exp = [f(copy.deepcopy(x), copy.deepcopy(y)) for x, y in zip(keep_a, keep_b)]
+  try:
+    if left == "hub-two-expressions":
+      from audiolazy import thub
+      hub = thub(Stream(a), 2)
+      rb = Stream(b) if other == "stream" else b
+      first = list(f(hub, rb))
+      second = list(f(hub, copy.deepcopy(keep_b) if other != "stream" else Stream(copy.deepcopy(keep_b))))
+      if second != exp:
+        return bad("mutable:second-expression", "two expressions fed by one hub: the second one must see the elements "
+                   "as they are, not as the first expression left them", [repr(v) for v in exp], [repr(v) for v in second], True)
+      got = first
+    else:
+      sa = Stream(tuple(a) if left == "tuple" else a)
+      rb = Stream(b) if other == "stream" else b
+      got = list(f(sa, rb))
+  except Exception as exc:
+    return bad("mutable:exception:" + type(exc).__name__, "operator on mutable elements raised", None, str(exc)[:200], True)
+  if got != exp:
+    return bad("mutable:value", "the i-th output must be the operator applied to the i-th elements",
+               [repr(v) for v in exp], [repr(v) for v in got], True)
+  if a != keep_a or (other != "stream" and b != keep_b):
+    return bad("mutable:operand-changed", "the operator changed the elements of its operand",
+               repr(keep_a), repr(a), True)
+  if any(g is x for g in got for x in a):
+    return bad("mutable:aliased", "an output element is the operand's own element object", "new objects", "same object", True)
+  return R(None, True, (name, left, other))
+
+
 # --------------------------------- scalars that can be indexed (but are not iterable)
 class Word(int):
   """An int that also answers word[i] (a bit); it has no __iter__ and is a scalar for every purpose."""
@@ -917,5 +988,6 @@ KINDS = OrderedDict([
   ("ops-long", Kind(gen_ops_long, run_op_long, chunk=20, rule="every operator x other kind on operands of 300 / 257 vs 64 / 65 vs 1000 elements")),
   ("op-method", Kind(gen_op_method, run_op_method, chunk=200, rule="operator, Stream method, operator, method, operator: all combinations of the menus")),
   ("periodic-consumed", Kind(gen_periodic, run_periodic, chunk=200, rule="pairs of periodic Streams x items already taken from each x operator")),
+  ("mutable-elements", Kind(gen_mutable, run_mutable, chunk=10, rule="operators on elements that are lists / sets / dicts x left operand kind (list, one object repeated, hub feeding two expressions) x other operand kind")),
   ("indexable-scalars", Kind(gen_indexable, run_indexable, chunk=20, rule="binary operators x a scalar operand with __getitem__ (int subclass, Poly, TableLookup)")),
 ])
